@@ -1,0 +1,111 @@
+//! Verification hooks (compiled only with `--cfg calloop_verif`).
+//!
+//! Nothing in here changes the behaviour of the crate: every hook is a no-op
+//! unless the calling *thread* installed an observer, and the batch limit
+//! defaults to the crate's own constant.
+
+#![allow(missing_docs, missing_debug_implementations)]
+
+use std::cell::{Cell, RefCell};
+
+use crate::token::TokenInner;
+
+thread_local! {
+    static YIELD: RefCell<Option<Box<dyn Fn(&'static str)>>> = const { RefCell::new(None) };
+    static OBSERVER: RefCell<Option<Box<dyn Fn(Obs<'_>)>>> = const { RefCell::new(None) };
+    static BATCH_LIMIT: Cell<usize> = const { Cell::new(1024) };
+}
+
+/// Observation points of the loop thread.
+#[derive(Debug)]
+pub enum Obs<'a> {
+    /// `dispatch_events` is about to call `Poll::poll` with this timeout (ms, None = infinite).
+    WaitBegin { timeout_us: Option<u64> },
+    /// `Poll::poll` returned these keys (kernel events first, expired timers after `n_real`).
+    Batch { keys: &'a [usize], n_real: usize },
+    /// the synthetic events (from `before_sleep`) that are dispatched before the batch
+    Synthetic { keys: &'a [usize] },
+    /// slot lookup for an event of the batch
+    Lookup { key: usize, found: bool },
+    /// the post action that is going to be applied to the source of `key`
+    Apply { key: usize, action: crate::PostAction },
+}
+
+/// Install (or clear) the yield hook of the calling thread.
+pub fn set_yield_hook(hook: Option<Box<dyn Fn(&'static str)>>) {
+    YIELD.with(|y| *y.borrow_mut() = hook);
+}
+
+/// Install (or clear) the observer of the calling thread.
+pub fn set_observer(obs: Option<Box<dyn Fn(Obs<'_>)>>) {
+    OBSERVER.with(|o| *o.borrow_mut() = obs);
+}
+
+/// A point at which a step scheduler may park the calling thread.
+#[inline]
+pub fn yield_point(label: &'static str) {
+    // `try_with`: thread-local destructors may run code that pings
+    let _ = YIELD.try_with(|y| {
+        if let Ok(y) = y.try_borrow() {
+            if let Some(hook) = y.as_ref() {
+                hook(label);
+            }
+        }
+    });
+}
+
+#[inline]
+pub(crate) fn observe(obs: Obs<'_>) {
+    let _ = OBSERVER.try_with(|o| {
+        if let Ok(o) = o.try_borrow() {
+            if let Some(hook) = o.as_ref() {
+                hook(obs);
+            }
+        }
+    });
+}
+
+/// Per-dispatch batch limit of the channel and the executor on the calling thread (default 1024).
+pub fn batch_limit() -> usize {
+    BATCH_LIMIT.try_with(|b| b.get()).unwrap_or(1024)
+}
+
+/// Lower (or restore) the per-dispatch batch limit for the calling thread.
+pub fn set_batch_limit(n: usize) {
+    BATCH_LIMIT.with(|b| b.set(n));
+}
+
+/// The key reserved by `polling` for its notifier.
+pub const NOTIFY_KEY: usize = usize::MAX;
+
+/// Encode a (slot id, version, sub id) triple the way the crate hands it to the poller.
+pub fn pack(id: u32, version: u16, sub_id: u16) -> usize {
+    let t = TokenInner::new(id as usize).unwrap().verif_with(version, sub_id);
+    usize::from(t)
+}
+
+/// Decode a poller key.
+pub fn unpack(key: usize) -> (u32, u16, u16) {
+    let t = TokenInner::from(key);
+    t.verif_parts()
+}
+
+/// The version following `version` when a slot is reused.
+pub fn next_version(id: u32, version: u16) -> u16 {
+    let t = TokenInner::new(id as usize).unwrap().verif_with(version, 0);
+    t.increment_version().verif_parts().1
+}
+
+/// Snapshot of the loop's bookkeeping.
+#[derive(Debug, Clone, PartialEq, Eq)]
+pub struct Stats {
+    pub slots: usize,
+    pub occupied: usize,
+    /// (id, version, occupied) per slot
+    pub slot_list: Vec<(u32, u16, bool)>,
+    pub lifecycle_len: usize,
+    pub lifecycle: Vec<(u32, u16)>,
+    pub idles_len: usize,
+    pub timer_heap_len: usize,
+    pub pending_action: crate::PostAction,
+}
